@@ -30,7 +30,7 @@
 // are whole JSON documents (decoding is documented for static values: those ARE asserted to
 // arrive decoded, every other string starting with { or [ must arrive verbatim as a string);
 // containers / whole floats inside "{{ }}" attribute interpolation, a literal { directly before
-// {{, surrounding whitespace of prop values and bound paths that do not resolve (never generated;
+// {{, blanks around a value that starts with { or [ and bound paths that do not resolve (never generated;
 // a replayed case containing them is only checked for shorthand == explicit).
 package c05
 
@@ -62,9 +62,10 @@ const prop = "C05"
 
 // Known findings (open): input regions the generators avoid by construction while they are open.
 const (
-	kfFalsy  = "C05-falsy-bound-prop-dropped"                // :p="x" with x in {0, 0.0, false, "", "false"}
-	kfNested = "C05-shorthand-inside-component"              // <kebab-tag> written inside a component file
-	kfBraces = "C05-mustache-ignored-next-to-closing-braces" // attribute text with mustaches AND a further }} (nested JSON objects closing)
+	kfFalsy   = "C05-falsy-bound-prop-dropped"                // :p="x" with x in {0, 0.0, false, "", "false"}
+	kfNested  = "C05-shorthand-inside-component"              // <kebab-tag> written inside a component file
+	kfLiteral = "C05-literal-bound-prop-dropped"              // :p="true" / "7" / "1.5" / "'s'" (a literal instead of a variable path)
+	kfBraces  = "C05-mustache-ignored-next-to-closing-braces" // attribute text with mustaches AND a further }} (nested JSON objects closing)
 )
 
 // ---------------------------------------------------------------------------------------------
@@ -407,6 +408,8 @@ func richBlock(id string) bool {
 	return strings.HasPrefix(id, "C") && (strings.HasSuffix(id, ".in") || strings.HasSuffix(id, ".s"))
 }
 
+func preBlock(id string) bool { return strings.HasPrefix(id, "C") && strings.HasSuffix(id, ".in") }
+
 func slotText(kind string) string {
 	switch kind {
 	case "default":
@@ -430,10 +433,18 @@ func block(id string, names []string, reads ...string) string {
 	var b strings.Builder
 	for _, n := range names {
 		if richBlock(id) {
-			fmt.Fprintf(&b, `<i data-m="%s:%s" data-t="{{ %s | type }}" :data-a="%s">{{ %s | json }}<u v-if="%s">T</u></i>`+"\n", id, n, n, n, n, n)
+			fmt.Fprintf(&b, `<i data-m="%s:%s" data-t="{{ %s | type }}" data-j="{{ %s | json }}" :data-a="%s">{{ %s | json }}<u v-if="%s">T</u></i>`+"\n", id, n, n, n, n, n, n)
 			continue
 		}
 		fmt.Fprintf(&b, `<i data-m="%s:%s" data-t="{{ %s | type }}">{{ %s | json }}</i>`+"\n", id, n, n, n)
+	}
+	if preBlock(id) {
+		// the same values once more inside <pre>, one per line: white space is significant there
+		var lines []string
+		for _, n := range names {
+			lines = append(lines, "{{ "+n+" | json }}")
+		}
+		fmt.Fprintf(&b, `<pre data-m="%s:~pre">%s</pre>`+"\n", id, strings.Join(lines, "\n"))
 	}
 	if richBlock(id) {
 		for _, e := range reads {
@@ -641,7 +652,37 @@ func (s scope) with() scope {
 }
 
 // resolve follows a dotted path through map[string]any values.
+var (
+	intLit   = regexp.MustCompile(`^-?[0-9]+$`)
+	floatLit = regexp.MustCompile(`^-?[0-9]+\.[0-9]+$`)
+	strLit   = regexp.MustCompile(`^'[^'\\]*'$`)
+)
+
+// literalOf: a bound prop may hold a literal instead of a variable path (":prop=\"expression\"").
+func literalOf(expr string) (any, bool) {
+	switch {
+	case expr == "true":
+		return true, true
+	case expr == "false":
+		return false, true
+	case expr == "null":
+		return nil, true
+	case intLit.MatchString(expr):
+		n, _ := strconv.Atoi(expr)
+		return n, true
+	case floatLit.MatchString(expr):
+		f, _ := strconv.ParseFloat(expr, 64)
+		return f, true
+	case strLit.MatchString(expr):
+		return expr[1 : len(expr)-1], true
+	}
+	return nil, false
+}
+
 func (s scope) resolve(path string) (mv, bool) {
+	if v, isLit := literalOf(path); isLit {
+		return mv{v, true}, true
+	}
 	parts := strings.Split(path, ".")
 	cur, ok := s[parts[0]]
 	if !ok {
@@ -704,13 +745,20 @@ type expMarker struct {
 	undef bool   // not visible: must render exactly like u0 of the same block
 	typ   string // "" = not asserted
 	json  string
-	read  bool // a Reads expression
-	skip  bool // Reads: value left open (only the marker's position is checked)
+	pre   []preLine // a <pre> marker: one line per printed name
+	read  bool      // a Reads expression
+	skip  bool      // Reads: value left open (only the marker's position is checked)
 	// rich blocks only
 	rich    bool
 	attr    string // expected :data-a text when attrSet
 	attrSet bool   // asserted only for truthy scalars (how falsy values / containers render as attributes is not documented)
 	vif     int    // v-if="NAME": 1 rendered, 0 not rendered, -1 not asserted ("false", empty containers)
+}
+
+type preLine struct {
+	name  string
+	undef bool
+	json  string
 }
 
 // vifOf is the documented truthiness (docs/syntax.md: false, 0, "" and nil are falsey, any other
@@ -769,6 +817,8 @@ type stats struct {
 	wrap, nowrap, leakWatch, passThru int
 	omitted                           int
 	jsonDocStatic                     int
+	blankProps                        map[string]int // static / interpolated props with leading or trailing white space
+	literalBound                      int
 	fills                             map[string]int // slot templates on include tags (slot variable name collisions)
 	jsonTpl                           map[int]int    // json props by number of mustaches
 	readsAsserted, unbalanced         int
@@ -782,7 +832,7 @@ type stats struct {
 }
 
 func newStats() stats {
-	return stats{modes: map[string]int{}, boundKinds: map[string]int{}, bracketText: map[string]int{}, places: map[string]int{}, jsonDocKept: map[string]int{}, jsonTpl: map[int]int{}, fills: map[string]int{}}
+	return stats{modes: map[string]int{}, boundKinds: map[string]int{}, bracketText: map[string]int{}, places: map[string]int{}, jsonDocKept: map[string]int{}, jsonTpl: map[int]int{}, fills: map[string]int{}, blankProps: map[string]int{}}
 }
 
 type result struct {
@@ -1023,6 +1073,31 @@ func avoidBraces(c *Case) int {
 	return n
 }
 
+// avoidLiterals rewrites every bound prop that holds a literal to a variable path (region of
+// the finding kfLiteral) and returns the number of rewrites.
+func avoidLiterals(c *Case) int {
+	n := 0
+	fix := func(incs []Inc) {
+		for i := range incs {
+			for j := range incs[i].Props {
+				p := &incs[i].Props[j]
+				if p.Mode != "bind" && p.Mode != "vbind" {
+					continue
+				}
+				if _, isLit := literalOf(p.Path); isLit {
+					p.Path = "d0"
+					n++
+				}
+			}
+		}
+	}
+	fix(c.Page)
+	for i := range c.Comps {
+		fix(c.Comps[i].Incs)
+	}
+	return n
+}
+
 // readExpr evaluates a Reads expression in sc; ok=false where the result is left open.
 func readExpr(expr string, sc scope) (val any, typed, ok bool) {
 	base, isLen := strings.CutSuffix(expr, "|len")
@@ -1094,7 +1169,11 @@ func evalProps(props []Prop, sc scope, r *result) map[string]mv {
 		switch p.Mode {
 		case "static":
 			if p.Text != strings.TrimSpace(p.Text) {
-				r.vague = "static prop value with surrounding whitespace"
+				// props arrive as written, blanks included; left open: blanks around a JSON literal
+				r.st.blankProps["static"]++
+				if looksJSON(strings.TrimSpace(p.Text)) {
+					r.vague = "static prop value with blanks around text that starts with { or ["
+				}
 			}
 			if looksJSON(p.Text) {
 				// documented mechanism (docs: `data="{...}"` or `[...]`): a static value that IS a
@@ -1142,7 +1221,10 @@ func evalProps(props []Prop, sc scope, r *result) map[string]mv {
 			}
 			full := p.Text + s + p.Post
 			if full != strings.TrimSpace(full) {
-				r.vague = "interpolated prop value with surrounding whitespace"
+				r.st.blankProps["interp"]++
+				if looksJSON(strings.TrimSpace(full)) {
+					r.vague = "interpolated prop value with blanks around text that starts with { or ["
+				}
 			}
 			if strings.HasSuffix(p.Text, "{") {
 				r.vague = "literal { directly before {{ (ambiguous template syntax)"
@@ -1172,6 +1254,9 @@ func evalProps(props []Prop, sc scope, r *result) map[string]mv {
 			}
 			if falsy(v.v) {
 				r.st.falsyBound++
+			}
+			if _, isLit := literalOf(p.Path); isLit {
+				r.st.literalBound++
 			}
 			if v.v == nil {
 				r.vague = "bound prop whose value is null (not asserted)"
@@ -1222,6 +1307,19 @@ func model(c Case) result {
 				// not visible, or null (front-matter `key:` / `key: ~` / `key: null` overriding a
 				// prop or an includer variable): reads like a name that was never defined
 				e.undef = true
+			}
+			r.exp = append(r.exp, e)
+		}
+		if preBlock(blk) {
+			e := expMarker{id: blk + ":~pre", block: blk, name: "~pre", vif: -1}
+			for _, n := range names {
+				l := preLine{name: n}
+				if v, ok := sc[n]; ok && v.v != nil {
+					l.json = jsonOf(v.v)
+				} else {
+					l.undef = true
+				}
+				e.pre = append(e.pre, l)
 			}
 			r.exp = append(r.exp, e)
 		}
@@ -1529,6 +1627,28 @@ func judge(what string, out string, err error, m result) error {
 		if e.skip {
 			continue
 		}
+		if e.pre != nil {
+			lines := strings.Split(g.Text, "\n")
+			if len(lines) != len(e.pre) {
+				return fmt.Errorf("%s: %s: <pre> holds %d lines, want %d: %q", what, e.id, len(lines), len(e.pre), g.Text)
+			}
+			uLine := ""
+			for k, l := range e.pre {
+				if l.name == undefName {
+					uLine = lines[k]
+				}
+			}
+			for k, l := range e.pre {
+				switch {
+				case l.name == undefName:
+				case l.undef && lines[k] != uLine:
+					return fmt.Errorf("%s: %s: name %q must not be visible here / is null here, but inside <pre> it prints %q (never-defined name: %q)", what, e.id, l.name, lines[k], uLine)
+				case !l.undef && lines[k] != l.json:
+					return fmt.Errorf("%s: %s: inside <pre> %s prints %q, want exactly %q", what, e.id, l.name, lines[k], l.json)
+				}
+			}
+			continue
+		}
 		if e.undef {
 			if e.name == undefName {
 				continue
@@ -1536,6 +1656,9 @@ func judge(what string, out string, err error, m result) error {
 			u := ref[e.block]
 			if g.Text != u.Text || g.Attrs["data-t"] != u.Attrs["data-t"] {
 				return fmt.Errorf("%s: %s: name %q must not be visible here / is null here (never-defined name prints %s type %q) but it prints %s type %q", what, e.id, e.name, u.Text, u.Attrs["data-t"], g.Text, g.Attrs["data-t"])
+			}
+			if e.rich && g.Attrs["data-j"] != u.Attrs["data-j"] {
+				return fmt.Errorf("%s: %s: name %q must not be visible here / is null here, but data-j prints %q (never-defined name: %q)", what, e.id, e.name, g.Attrs["data-j"], u.Attrs["data-j"])
 			}
 			if e.rich {
 				ga, gHas := g.Attrs["data-a"]
@@ -1548,6 +1671,10 @@ func judge(what string, out string, err error, m result) error {
 				}
 			}
 			continue
+		}
+		if e.rich && !e.read && g.Attrs["data-j"] != e.json {
+			// attribute values are compared exactly: white space of a prop arrives as written
+			return fmt.Errorf("%s: %s: data-j=\"{{ %s | json }}\" prints %q, want exactly %q", what, e.id, e.name, g.Attrs["data-j"], e.json)
 		}
 		if e.rich {
 			if e.attrSet {
@@ -1595,7 +1722,7 @@ func describe(c Case) string {
 		// drop the print blocks' noise: keep include lines, front-matter and template tags
 		var keep []string
 		for _, line := range strings.Split(s, "\n") {
-			if strings.HasPrefix(line, "<i data-m=") || line == "" {
+			if strings.HasPrefix(line, "<i data-m=") || strings.HasPrefix(line, "<pre data-m=") || strings.HasPrefix(line, "{{ ") || line == "" {
 				continue
 			}
 			keep = append(keep, line)
@@ -1683,6 +1810,10 @@ func classify(c Case) (bool, []string) {
 	for k, n := range s.fills {
 		add(n > 0, "slot-fill:"+k)
 	}
+	for k, n := range s.blankProps {
+		add(n > 0, "prop-with-surrounding-blanks-"+k)
+	}
+	add(s.literalBound > 0, "bound-literal")
 	add(s.readsAsserted > 0, "path/len-read-asserted")
 	add(s.unbalanced > 0, "json-literal-with-mustaches-and-closing-}}")
 	add(s.closeBeforeOpen > 0, "json-literal-}}-before-first-mustache")
@@ -1866,6 +1997,9 @@ func genProps(t *rapid.T, g *valGen, names []string, label string, pl *Place) []
 		case m < 10:
 			g.n++
 			txt := rapid.SampledFrom([]string{fmt.Sprintf("t%d", 10+g.n), fmt.Sprintf("t%d", 10+g.n), "", "0", "false", "true", "12", "1.5", "[", "[", "{"}).Draw(t, l+".text")
+			if rapid.IntRange(0, 4).Draw(t, l+".blank") == 0 {
+				txt = rapid.SampledFrom(blankTexts).Draw(t, l+".blanktext")
+			}
 			switch txt {
 			case "[": // text that merely starts with [ or {
 				txt = rapid.SampledFrom(bracketTexts).Draw(t, l+".bracket")
@@ -1883,11 +2017,14 @@ func genProps(t *rapid.T, g *valGen, names []string, label string, pl *Place) []
 			out = append(out, Prop{Name: n, Mode: "static", Text: txt})
 		case m < 13:
 			g.n++
-			pre := rapid.SampledFrom([]string{"", "", fmt.Sprintf("p%d", 10+g.n), fmt.Sprintf("p%d", 10+g.n), "[", "}"}).Draw(t, l+".pre")
+			pre := rapid.SampledFrom([]string{"", "", fmt.Sprintf("p%d", 10+g.n), fmt.Sprintf("p%d", 10+g.n), "[", "}", " "}).Draw(t, l+".pre")
 			post := rapid.SampledFrom([]string{"", "q"}).Draw(t, l+".post")
 			switch pre {
 			case "[":
 				pre = rapid.SampledFrom(bracketPrefixes).Draw(t, l+".bracketpre")
+			case " ": // blanks around the mustache
+				pre = rapid.SampledFrom(append([]string{""}, blankPre...)).Draw(t, l+".blankpre")
+				post = rapid.SampledFrom(blankPost).Draw(t, l+".blankpost")
 			case "}": // stray braces around the mustache
 				pre = rapid.SampledFrom(strayPre).Draw(t, l+".straypre")
 				post = rapid.SampledFrom(strayPost).Draw(t, l+".straypost")
@@ -1897,6 +2034,9 @@ func genProps(t *rapid.T, g *valGen, names []string, label string, pl *Place) []
 			out = append(out, Prop{Name: n, Mode: "bind", Path: src(bindSources)})
 		default:
 			out = append(out, Prop{Name: n, Mode: "vbind", Path: src(bindSources)})
+		}
+		if k := len(out) - 1; k >= 0 && out[k].Name == n && (out[k].Mode == "bind" || out[k].Mode == "vbind") && rapid.IntRange(0, 7).Draw(t, l+".lit") == 0 {
+			out[k].Path = rapid.SampledFrom(boundLiterals).Draw(t, l+".literal") // a literal instead of a path
 		}
 	}
 	// attribute order on the tag is varied too
@@ -1927,6 +2067,16 @@ var jsonTemplates = []struct {
 
 // strayPre / strayPost: plain text with stray braces around a well-formed mustache - "}}" before
 // the first "{{", a lone "{{" after it: the mustache is interpolated all the same.
+// boundLiterals: literals in place of a variable path in a bound prop.
+var boundLiterals = []string{"true", "false", "0", "7", "-3", "1.5", "''", "'s'", "'two words'"}
+
+// blankTexts: static prop values with leading, trailing and inner runs of blanks, tabs, newlines.
+var blankTexts = []string{"  two  words  ", " lead", "trail ", "\ttab\t", " \n nl \n ", "   ", "a  b", " x"}
+
+// blankPre / blankPost: the same around a mustache.
+var blankPre = []string{" ", "  p ", "\t", " \n", "a  "}
+var blankPost = []string{" ", " - ", "\t", "  z  ", "\n "}
+
 var strayPre = []string{"}} ", "a } }} ", "}}", "} ", "x }} y "}
 var strayPost = []string{"", " {{", " }} b", "}}", " {", " {{ x"}
 
@@ -2070,8 +2220,8 @@ func repair(c *Case, avoidFalsy bool) (status []map[string]*nameStatus, excluded
 						if v, ok := sc.resolve(p.Path); ok {
 							if txt, ok := scalarText(v.v); ok {
 								full := p.Text + txt + p.Post
-								if full != strings.TrimSpace(full) {
-									p.Post = "q" // surrounding whitespace of a prop value: not asserted
+								if full != strings.TrimSpace(full) && looksJSON(strings.TrimSpace(full)) {
+									p.Text = "p" + p.Text // blanks around text starting with { or [: not asserted
 								}
 								if _, isDoc := jsonDoc(p.Text + txt + p.Post); isDoc && looksJSON(p.Text) {
 									p.Text = "p" + p.Text // literal [ or { completed to a JSON document: not asserted
@@ -2305,6 +2455,11 @@ func genCase(rec *ev.Rec, known *kf.File) func(t *rapid.T) Case {
 		if known.Open(kfBraces) {
 			for i, nb := 0, avoidBraces(&c); i < nb; i++ {
 				rec.Excluded(kfBraces)
+			}
+		}
+		if known.Open(kfLiteral) {
+			for i, nb := 0, avoidLiterals(&c); i < nb; i++ {
+				rec.Excluded(kfLiteral)
 			}
 		}
 		addReads := func(incs []Inc) {
@@ -3102,6 +3257,87 @@ func enumBraces(yield func(Case) bool) int {
 	return n
 }
 
+// enumBlanks: static and interpolated props with leading / trailing / inner runs of blanks, tabs
+// and newlines arrive exactly as written, in both spellings (read through an attribute, <pre>
+// and text), x includer collision x nesting / inside v-for.
+func enumBlanks(yield func(Case) bool) int {
+	n := 0
+	type pv struct{ text, post string }
+	var list []pv
+	for _, b := range blankTexts {
+		list = append(list, pv{b, "\x00"})
+	}
+	for i, pre := range append([]string{""}, blankPre...) {
+		list = append(list, pv{pre, blankPost[i%len(blankPost)]}, pv{pre, ""})
+	}
+	for _, v := range list {
+		for z := 0; z < 8; z++ {
+			inData, nested, loop := z&1 != 0, z&2 != 0, z&4 != 0
+			c := Case{Names: []string{"va1", "vb2"}, Print: []string{"d1"}, Data: placeData(true), NestedShort: true,
+				Comps: []Comp{{Name: "CardA", Wrap: z%2 == 0, EOL: []string{"", "crlf"}[z/4]}, {Name: "BoxB", Dir: "ui", EOL: []string{"crlf", ""}[z/4]}}}
+			if inData {
+				c.Data["va1"] = vals.Str(" incl ")
+			}
+			p := Prop{Name: "va1", Mode: "static", Text: v.text}
+			if v.post != "\x00" {
+				p = Prop{Name: "va1", Mode: "interp", Text: v.text, Path: "d1", Post: v.post}
+			}
+			inc := Inc{Comp: 0, Props: []Prop{p, {Name: "vb2", Mode: "static", Text: "x"}}}
+			if loop {
+				inc.Place = &Place{Kind: "loop"}
+			}
+			if nested {
+				c.Comps[1].Incs = []Inc{inc}
+				c.Comps[0], c.Comps[1] = c.Comps[1], c.Comps[0]
+				c.Comps[0].Incs[0].Comp = 1
+				c.Page = []Inc{{Comp: 0}}
+			} else {
+				c.Page = []Inc{inc}
+			}
+			n++
+			if !yield(c) {
+				return n
+			}
+		}
+	}
+	return n
+}
+
+// enumLiteral: a bound prop holding a literal (true, false, numbers, quoted strings) x :p / v-bind:p
+// x includer collision x front-matter of another name x required.
+func enumLiteral(yield func(Case) bool) int {
+	n := 0
+	for _, lit := range boundLiterals {
+		for _, mode := range []string{"bind", "vbind"} {
+			for z := 0; z < 8; z++ {
+				inData, isReq, nested := z&1 != 0, z&2 != 0, z&4 != 0
+				c := Case{Names: []string{"va1", "vb2"}, Print: []string{"d1"}, Data: fixedData(), NestedShort: true,
+					Comps: []Comp{{Name: "CardA", Wrap: z%2 == 0, FM: map[string]vals.V{"vb2": vals.Str("fm2")}}, {Name: "BoxB"}}}
+				if inData {
+					c.Data["va1"] = vals.Str("incl")
+				}
+				if isReq {
+					c.Comps[0].Req = []Req{{":required", "va1"}}
+				}
+				inc := Inc{Comp: 0, Props: []Prop{{Name: "va1", Mode: mode, Path: lit}}}
+				if nested {
+					c.Comps[1].Incs = []Inc{inc}
+					c.Comps[0], c.Comps[1] = c.Comps[1], c.Comps[0]
+					c.Comps[0].Incs[0].Comp = 1
+					c.Page = []Inc{{Comp: 0}}
+				} else {
+					c.Page = []Inc{inc}
+				}
+				n++
+				if !yield(c) {
+					return n
+				}
+			}
+		}
+	}
+	return n
+}
+
 // ---------------------------------------------------------------------------------------------
 // Tests
 // ---------------------------------------------------------------------------------------------
@@ -3137,6 +3373,11 @@ func TestProp(t *testing.T) {
 					rec.Excluded(kfBraces)
 				}
 			}
+			if known.Open(kfLiteral) {
+				for k, nb := 0, avoidLiterals(&c); k < nb; k++ {
+					rec.Excluded(kfLiteral)
+				}
+			}
 			nt, cls := classify(c)
 			return run.Each(rec, kind, c, nt, cls, check)
 		}
@@ -3157,6 +3398,8 @@ func TestProp(t *testing.T) {
 	n11 := enumFill(each("enum-fill"))
 	n12 := enumDirs(each("enum-dirs"))
 	n13 := enumBraces(each("enum-braces"))
+	n14 := enumBlanks(each("enum-blanks"))
+	n15 := enumLiteral(each("enum-literal"))
 	if shard == 0 {
 		for k := 0; k < skipped; k++ {
 			rec.Excluded(kfFalsy)
@@ -3168,7 +3411,7 @@ func TestProp(t *testing.T) {
 		}
 	}
 	if full && !rec.Failed() {
-		rec.Exhaustive(fmt.Sprintf("flat: %d names x {5 prop modes x front-matter x includer x required} (%d); twice: same component twice, 5^4 prop modes x front-matter x includer (%d); chain: depth-3 chain, one name, 10 states per level x includer x leaf required (%d); types: 33 values (16 of them texts starting with [ or { that are not JSON) x 5 modes x 4 collisions + 7 JSON documents as static props (%d); place: 39 placements (loop, slot content, chain member) x 6 ways of passing va1 x front-matter x includer x required (%d); pool: component with 9..12 bindings followed by loop / slot placements, twice (%d); case: 5 names with upper-case letters x front-matter x includer x 4 :required spellings (%d); fmzero: 10 null / zero-ish front-matter values x 5 prop modes x includer x root template x nesting (%d); jsontpl: 8 JSON literals with 0..2 mustaches x 3 sources x includer x front-matter x nesting (%d); spell: LF/CRLF x fence blanks x prop mode (null spelling rotating) x includer x root template x page CRLF (%d); fill: 3 slot kinds (binding nothing) x 7 sets of slot templates declaring colliding variables x 4 prop modes x includer x root template x nesting (%d); dirs: 17 component folders x 3 file names x required prop provided or not x nesting (%d); braces: 6 texts before x 6 texts after a mustache (stray }} and {{) x includer x nesting (%d)", run.Pick(2, 3), n1, n2, n3, n4, n5, n6, n7, n8, n9, n10, n11, n12, n13))
+		rec.Exhaustive(fmt.Sprintf("flat: %d names x {5 prop modes x front-matter x includer x required} (%d); twice: same component twice, 5^4 prop modes x front-matter x includer (%d); chain: depth-3 chain, one name, 10 states per level x includer x leaf required (%d); types: 33 values (16 of them texts starting with [ or { that are not JSON) x 5 modes x 4 collisions + 7 JSON documents as static props (%d); place: 39 placements (loop, slot content, chain member) x 6 ways of passing va1 x front-matter x includer x required (%d); pool: component with 9..12 bindings followed by loop / slot placements, twice (%d); case: 5 names with upper-case letters x front-matter x includer x 4 :required spellings (%d); fmzero: 10 null / zero-ish front-matter values x 5 prop modes x includer x root template x nesting (%d); jsontpl: 8 JSON literals with 0..2 mustaches x 3 sources x includer x front-matter x nesting (%d); spell: LF/CRLF x fence blanks x prop mode (null spelling rotating) x includer x root template x page CRLF (%d); fill: 3 slot kinds (binding nothing) x 7 sets of slot templates declaring colliding variables x 4 prop modes x includer x root template x nesting (%d); dirs: 17 component folders x 3 file names x required prop provided or not x nesting (%d); braces: 6 texts before x 6 texts after a mustache (stray }} and {{) x includer x nesting (%d); blanks: 20 static / interpolated prop values with leading, trailing, inner blanks, tabs, newlines x includer x nesting x v-for (%d); literal: 9 literals in bound props x : / v-bind: x includer x required x nesting (%d, rewritten to variable paths while C05-literal-bound-prop-dropped is open)", run.Pick(2, 3), n1, n2, n3, n4, n5, n6, n7, n8, n9, n10, n11, n12, n13, n14, n15))
 	}
 
 	run.Rapid(t, rec, "random", genCase(rec, known), classify, check)
